@@ -135,7 +135,7 @@ class GFun(rwfrag.GSem):
         return ["def h(p):"] + ["    " + l for l in body]
 
     def program(self):
-        lines = ["a = 1", "b = 2", "c = 3"]
+        lines = (["'d'"] if self.rng.random() < 0.2 else []) + ["a = 1", "b = 2", "c = 3"]      # 20%: a module docstring (as written, first, silent)
         if self.rng.random() < 0.08:
             lines.append(self.call())                  # a call before any definition
         lines += self.fundef("f")
